@@ -16,6 +16,7 @@
 #include <string.h>
 #include <sys/mman.h>
 #include <sys/stat.h>
+#include <sys/time.h>
 #include <time.h>
 #include <unistd.h>
 
@@ -220,6 +221,7 @@ struct State {
   unsigned call_cnt[C_NCALLS][3];
   std::unordered_set<uint64_t> states;
   int nworkers_created = 0;
+  uint64_t io_progress = 0;          // read()/write() calls that transferred at least one byte
   uint64_t preempt_steps = 0;
   int64_t preempt_countdown = 0;     // "preempt" variant: instrumented accesses until the next preemption point (<= 0: none pending)
   std::unordered_map<const void *, int> objid;   // address-independent ids for the history hash
@@ -474,7 +476,7 @@ static void schedule_point(int op, int64_t a) {
   // step budget: the static part comes from the plan (input shape), the dynamic part grows with
   // the I/O calls actually made, so that fragmentation cannot fake a livelock while a spinning
   // scheduler (steps without I/O) still exhausts it
-  uint64_t budget = (s.plan->step_budget ? s.plan->step_budget : 5000000) + 100ull * (s.call_cnt[C_READ][R_ANY] + s.call_cnt[C_WRITE][R_ANY]);
+  uint64_t budget = (s.plan->step_budget ? s.plan->step_budget : 5000000) + 100ull * s.io_progress;
   if (op == OP_PREEMPT) { s.preempt_steps++; R.inregion_points++; }     // preemption points inside unsynchronised code are not scheduler progress
   if (R.steps - s.preempt_steps > budget) end_run(X_BUDGET, 0);
 
@@ -1332,6 +1334,7 @@ ssize_t simw_read(int fd, void *buf, size_t n) { SHIM;
   if (n > 0) n = cut(*fr, n, &s.res->frag_cuts);
   user_write(buf, data->data() + *pos, n);
   *pos += n;
+  if (n > 0) s.io_progress++;      // only transfers that move data earn step budget (a loop re-reading at end of file must run out of it)
   ev(OP_READ, fd, (int64_t)n);
   return (ssize_t)n;
 }
@@ -1385,6 +1388,7 @@ ssize_t simw_write(int fd, const void *buf, size_t n) { SHIM;
     e.off += n;
   }
   // content participates in the history hash (sampled for speed)
+  if (n > 0) s.io_progress++;
   ev(OP_WRITE, fd, (int64_t)n);
   return (ssize_t)n;
 }
@@ -1645,8 +1649,37 @@ void init() {
   tls_init();
 }
 
+// Watchdog against a simulated thread that never reaches an intercepted call again (a busy-wait on a flag, an endless loop in
+// unsynchronised code): nothing can preempt it in the serialising variants, and in the preempt variant in-region points do not
+// consume step budget.  The scheduler stamps every decision; if the stamp has not moved for WATCHDOG_S seconds of real time the run
+// is ended from the signal handler as a step-budget overrun.  (Real time enters only here, for runs that would never end.)
+static volatile uint64_t g_wd_last_steps;
+static volatile int g_wd_strikes;
+static void watchdog_tick(int) {
+  State *s = S;
+  if (!s || s->over || s->cur < 0) { g_wd_strikes = 0; return; }
+  uint64_t now = s->res->steps - s->preempt_steps;
+  if (now != g_wd_last_steps) { g_wd_last_steps = now; g_wd_strikes = 0; return; }
+  if (++g_wd_strikes < 6) return;      // 6 ticks of 30 s without a single scheduler decision
+  g_wd_strikes = 0;
+  if (s->res->monitor.empty()) s->res->monitor = "liveness: a thread ran for 3 minutes of real time without reaching any intercepted call (busy loop)";
+  end_run(X_BUDGET, 0);
+}
+static void watchdog_arm() {
+  static bool installed;
+  if (!installed) {
+    installed = true;
+    struct sigaction sa; memset(&sa, 0, sizeof sa); sa.sa_handler = watchdog_tick; sa.sa_flags = SA_NODEFER | SA_RESTART;
+    sigaction(SIGALRM, &sa, nullptr);
+    struct itimerval iv; iv.it_interval.tv_sec = 30; iv.it_interval.tv_usec = 0; iv.it_value = iv.it_interval;
+    setitimer(ITIMER_REAL, &iv, nullptr);
+  }
+  g_wd_strikes = 0;
+}
+
 Result run(const Plan &plan) {
   init();
+  watchdog_arm();
   Result R;
   State *st = new State();
   State &s = *st;
